@@ -387,8 +387,8 @@ func genHistory(r *rng.R, scatter bool) history {
 				}
 			}
 		}
-		if len(h.Spec.Cfg.RejectLeader) == 0 && r.Pct(35) {
-			h.Spec.Cfg.RejectLeader = [][2]string{{"zone", "z" + fmt.Sprint(1+r.Intn(3))}}
+		if len(h.Spec.Cfg.RejectLeader) == 0 {
+			h.Spec.Cfg.RejectLeader = gen10.GenRejectLeader(r, 55)
 		}
 	}
 	h.Spec.Rules = nil // the default rule (voters = max-replicas) plus, with tiflash stores, one learner rule (below)
@@ -670,6 +670,14 @@ func runHistory(h history, emit emitFn, hidx int) []string {
 	hc := &hookCluster{Cluster: tc}
 	sc := schedule.NewRegionScatterer(ctx, hc)
 	stores := bt.CoqStores()
+	reject := bt.CoqReject()
+	for _, d := range bt.PredicateDiffs() {
+		sig := "C11:store-predicate-misjudged:" + d[0]
+		if d[0] == "reject-leader" {
+			sig = "C11:reject-leader-property-misjudged"
+		}
+		emit("", "", false, []string{"predicate-diff:" + d[0]}, []res.Violation{{Sig: sig, Desc: d[1], Replay: h}})
+	}
 	labels := labelsOf(tc)
 	rules := tc.GetOpts().IsPlacementRulesEnabled()
 	var lastRegion int = -1
@@ -796,7 +804,7 @@ func runHistory(h history, emit emitFn, hidx int) []string {
 			}
 			log = append(log, fmt.Sprintf("scatter region %d %v group %q -> %s", region.GetID(), sim10.StoresOf(sim10.FromRegion(region)), a.Group, summary))
 			so := fmt.Sprintf("(Some (ScatterObs %d %s [%s] %v %s))", groupIDs[a.Group], before, strings.Join(guard, "; "), !rules, after)
-			coq := wrap08(fmt.Sprintf("(Case SScatter\n   %s\n   %s %s\n   %s\n   %s)", stores, labels, coqRegion(region), opS, so), region, scTr)
+			coq := wrap08(fmt.Sprintf("(Case SScatter\n   %s\n   %s %s %s\n   %s\n   %s)", stores, labels, reject, coqRegion(region), opS, so), region, scTr)
 			emit(coq, coq, true, tags, viol)
 		case "conc":
 			rs := runConcurrent(hc, sc, regions, a.Conc, a.Groups, a.Seed)
@@ -811,7 +819,7 @@ func runHistory(h history, emit emitFn, hidx int) []string {
 					continue
 				}
 				opS, tr := coqOp(region, cr.op)
-				coq := wrap08(fmt.Sprintf("(Case SScatterConc\n   %s\n   %s %s\n   %s\n   None)", stores, labels, coqRegion(region), opS), region, tr)
+				coq := wrap08(fmt.Sprintf("(Case SScatterConc\n   %s\n   %s %s %s\n   %s\n   None)", stores, labels, reject, coqRegion(region), opS), region, tr)
 				log = append(log, fmt.Sprintf("concurrent scatter (seed %d) region %d %v -> %s", a.Seed, region.GetID(), sim10.StoresOf(sim10.FromRegion(region)), sim10.Summary(cr.op)))
 				emit(coq, coq, true, []string{"conc:operator"}, append(anomalies(tr, sim10.Summary(cr.op)), goMonitor("scatter-concurrent", region, tr, sim10.Summary(cr.op))...))
 			}
@@ -871,7 +879,7 @@ func runHistory(h history, emit emitFn, hidx int) []string {
 				sort.Slice(all, func(i, j int) bool { return all[i].GetID() < all[j].GetID() })
 				xs := make([]string, len(all))
 				for i, st := range all {
-					xs[i] = bt.CoqStore(st)
+					xs[i] = bt.CoqStoreView(st)
 				}
 				caseStores = "[" + strings.Join(xs, ";\n    ") + "]"
 			}
@@ -885,7 +893,7 @@ func runHistory(h history, emit emitFn, hidx int) []string {
 					}
 					got++
 					opS, tr := coqOp(region, op)
-					coq := wrap08(fmt.Sprintf("(Case %s\n   %s\n   %s %s\n   %s\n   None)", coqSched(op.Desc(), a.Sched), caseStores, labels, coqRegion(region), opS), region, tr)
+					coq := wrap08(fmt.Sprintf("(Case %s\n   %s\n   %s %s %s\n   %s\n   None)", coqSched(op.Desc(), a.Sched), caseStores, labels, reject, coqRegion(region), opS), region, tr)
 					log = append(log, fmt.Sprintf("schedule %s %v -> region %d: %s", a.Sched, a.Args, region.GetID(), sim10.Summary(op)))
 					emit(coq, coq, true, []string{"sched:" + a.Sched + ":operator", "op:" + op.Desc()}, append(anomalies(tr, sim10.Summary(op)), goMonitor(a.Sched, region, tr, sim10.Summary(op))...))
 				}
